@@ -37,7 +37,9 @@ THEOREMS = [_T + n for n in [
     # follow-up 3: construction paths and histories
     "C19_extras_eq_iff_perm", "C19_extras_canonical", "C19_term_paths", "C19_order_hash_breaks",
     "C19_call_binding", "C19_find_call_styles",
-    "C19_history_cache_sound", "C19_history_cache_stale", "C19_history_hash_now", "C19_history_hash_stale"]]
+    "C19_history_cache_sound", "C19_history_cache_stale", "C19_history_hash_now", "C19_history_hash_stale",
+    # follow-up (wave 5): object identities
+    "C19_identity_lookup_sound", "C19_identity_lookup_breaks"]]
 LEVEL_TEXT = ("Lean theorems over a model of the encoder as the Python dict it is (insertion-ordered association list, "
               "later equal key overwrites; proved equal to a hash table that compares hashes first whenever ==-equal keys "
               "hash equally): for duplicate-free vocabularies encode = i iff the tag is the i-th vocabulary "
@@ -66,7 +68,14 @@ LEVEL_TEXT = ("Lean theorems over a model of the encoder as the Python dict it i
               "memoised hash on every change hashes as its content now while cached_property-style memos go stale. Tied by "
               "all ordered pairs of construction recipes per hashable class (constructor, model_validate, JSON, copies, "
               "extras in every order, explicit None), histories of calls on shared / reused / changed objects judged step "
-              "by step by the pure model, size thresholds and float32 store boundaries.")
+              "by step by the pure model, size thresholds and float32 store boundaries. Follow-up (wave 5): object identities - "
+              "an encoder that recognises a term by id() first and then consults only the values registered under that object "
+              "is the encoder whenever 'same object as the probe's term' and 'equal term content' coincide on the vocabulary, and answers none for the tag on "
+              "the term object of vocabulary tag 0 with the value of tag 1 when equal terms are separate objects; tied by laying "
+              "out, for vocabularies over equal terms, every combination of shared / separate term objects with the probe's term "
+              "object fresh / the equal vocabulary tag's / another vocabulary tag's and the probe a new Tag / a "
+              "model_copy(update) / the vocabulary's own object / a shallow copy / a subclass instance (same expected answer, "
+              "the model being about content).")
 LEVEL_NOTE = ("Trusted: Lean kernel; CPython dict/tuple/str/float/UUID hashing and equality (probing order of dict "
               "abstracted: every entry with the probe's hash is compared); pydantic BaseModel.__eq__ is "
               "observed, not modelled from source; numpy float32 store (its value is computed by the harness with "
@@ -76,7 +85,9 @@ LEVEL_NOTE = ("Trusted: Lean kernel; CPython dict/tuple/str/float/UUID hashing a
               "hash traces cannot see id()/type() of a field value (identity dependence is observed on two instances); a "
               "vocabulary list or vocabulary tag objects changed by the caller while an encoder built on them is alive "
               "(SimpleEncoder keeps the caller's sequence: decode follows it, encode the snapshot; noted, not compared); "
-              "subclasses of Tag; model_construct. "
+              "model_construct; subclasses of Tag that add fields (a subclass that adds nothing is generated and is expected to "
+              "be encoded like the Tag of the same term and value, which is what the (term, value) key does, although "
+              "pydantic's == between the two classes is False). "
               "Model tied to the code by regenerated obligations and generator-bounded correspondence.")
 TECHNIQUE = ("Lean 4 proof over model (dict as association list = hash table under the contract, fill loops over any "
              "encoder with numpy's index rule, find_tag, key= path, raw Python values and parametric hashes); field tables "
@@ -85,7 +96,8 @@ TECHNIQUE = ("Lean 4 proof over model (dict as association list = hash table und
              "encoder and on user-defined encoders; eq/hash monitor on the real classes; purity / list-vs-tuple / reuse "
              "probes on every call; construction-path products (RawTerm model of the extras), call styles against the "
              "documented signatures (bindCall), histories through harness/history.py judged per step by the pure model "
-             "(memo-table and memoised-hash theorems), size-threshold and float32-boundary sweeps")
+             "(memo-table and memoised-hash theorems), size-threshold and float32-boundary sweeps; object-identity layouts "
+             "(which Term / Tag objects carry the content) on the encoder and the three encodings, judged by the content model")
 RULE = ("exhaustive vocabularies (<= 4 distinct tags) x tag / predicted-tag lists over an adversarial pool (terms sharing "
         "name or label, optional-field and extra-field variants, empty values, case / blank / Unicode-composition variants "
         "of values), random longer ones, every encoder table of 3 tags into {skip, 0..K-1} (K <= 2) x tag lists, all "
@@ -102,7 +114,11 @@ RULE = ("exhaustive vocabularies (<= 4 distinct tags) x tag / predicted-tag list
         "vocabularies and lists of 15..17 / 255..257 / 1023..1025 elements; float32 ties, denormals and their binary64 "
         "neighbours; scores as int / bool / numpy scalars; vocabularies as list / tuple / deque / object array / user "
         "Sequence; keyword, positional and mixed calls; encoders whose num_classes is an instance / class attribute, a "
-        "property, a slot, a namedtuple or dataclass field; one uuid shared across kinds")
+        "property, a slot, a namedtuple or dataclass field; one uuid shared across kinds; follow-up (wave 5): every vocabulary "
+        "of <= 2 (<= 3 thorough) of 8 tags over 4 terms x 45 identity patterns (equal terms shared / separate / mixed x probe "
+        "term object fresh / own / another tag's x probe new / model_copy(update) / same object / copy / subclass), the "
+        "class of the vocabulary tags cycling over Tag / subclass / mixed, and random vocabularies x lists with a pattern "
+        "chosen independently per element for classification / multilabel / prediction; realised identities tallied")
 TRUSTED = ["CPython dict, tuple, str, float and UUID hashing/equality",
            "pydantic-core construction of the data objects (observed through __dict__ / __pydantic_extra__)",
            "numpy float32 assignment (value recomputed with struct.pack('f') and monitored as a contract)",
@@ -127,7 +143,9 @@ NOT_COMPARED = ["vocabularies with repeated tags (the property quantifies over d
                 "`holdsPrediction` (entry is one of that tag's scores) is required there",
                 "encoder indices outside [0, n) and decode outside [0, n): compared (numpy / list index rule) but not fixed "
                 "by the property - a disagreement is a broken correspondence, not by itself a violation",
-                "error messages; hash values themselves (only their equality); dtype of the multilabel vector"]
+                "error messages; hash values themselves (only their equality); dtype of the multilabel vector",
+                "pydantic's == between a Tag and an instance of a subclass of Tag with the same term and value (False): the "
+                "encoder is expected to treat them alike (content), as its (term, value) key does"]
 
 # ------------------------------------------------------------------ descriptors <-> real objects
 TERM_FIELDS = ["label", "definition", "name", "uri", "type_of_term", "comment", "see", "subproperty_of",
@@ -400,6 +418,8 @@ def _fresh_tag(d):
 
 def _impl_encoder(inp):
     from soundevent.evaluation import encoding
+    if inp.get("ident"):
+        return _impl_encoder_ident(inp)
     vocab = _vocab_objs(inp)
     snapshot = list(vocab)
     enc = encoding.create_tag_encoder(vocab)
@@ -444,16 +464,147 @@ def _full(d):
     return {"term": t, "value": d["value"]}
 
 
+# ------------------------------------------------------------------ follow-up (wave 5): object identities
+# The property is about *content*: which Python objects carry a term or a tag must not matter.  Every input of the encoder
+# and of the three encodings may carry an "ident" pattern (the model never sees it: same expected answer):
+#   share: equal terms of the vocabulary are separate equal Term objects / one shared object / mixed (even positions share)
+#   vcls : the vocabulary tags are data.Tag objects / instances of a subclass that adds nothing / mixed
+#   term : the term object of a probe is fresh / the one of the equal vocabulary tag ("own") / the one of ANOTHER
+#          vocabulary tag with an equal term ("other")      (a string, or a list cycled over the probes)
+#   obj  : the probe is a new Tag on that term object / model_copy(update={"value": ...}) of the vocabulary tag that owns
+#          the term object / the vocabulary's own object / a shallow copy of it / a subclass instance
+IDENT_SHARE = ["separate", "shared", "mixed"]
+IDENT_VCLS = ["tag", "sub", "mixed"]
+IDENT_TERM = ["fresh", "own", "other"]
+IDENT_OBJ = ["new", "update", "same", "copy", "subclass"]
+_SUBCLS = {}
+_IDENT_SEEN = {}            # what the patterns turned into, observed with `is` on the built objects
+
+
+def _sub_tag_class():
+    from soundevent import data
+    c = _SUBCLS.get(id(data.Tag))
+    if c is None or c[0] is not data.Tag:
+        class TagSub(data.Tag):
+            """a subclass of Tag that adds nothing: the same term, the same value, the same content"""
+        c = _SUBCLS[id(data.Tag)] = (data.Tag, TagSub)
+    return c[1]
+
+
+def _pat(x, n):
+    return x if isinstance(x, str) else x[n % len(x)]
+
+
+def _seen(what):
+    _IDENT_SEEN[what] = _IDENT_SEEN.get(what, 0) + 1
+
+
+def _ident_objs(inp, probes):
+    """(vocabulary objects, probe objects) for the descriptors inp["vocab"] / `probes`, with the object identities
+    laid out as inp["ident"] says; the content of every object is the descriptor's"""
+    import copy
+    from soundevent import data
+    idn = inp["ident"]
+    share, vcls, k = idn.get("share", "separate"), idn.get("vcls", "tag"), idn.get("k", 0)
+    Sub = _sub_tag_class()
+    shared, vocab = {}, []
+    for i, d in enumerate(inp["vocab"]):
+        cls = Sub if vcls == "sub" or (vcls == "mixed" and (i + k) % 2 == 1) else data.Tag
+        if share == "shared" or (share == "mixed" and (i + k) % 2 == 0):
+            tk = jkey(d["term"])
+            if tk not in shared:
+                shared[tk] = _new_term(d["term"])
+            vocab.append(cls(term=shared[tk], value=d["value"]))
+        elif cls is data.Tag and (i + k) % 3 == 2:       # parsed from plain data: its own Term object, as from a file
+            vocab.append(_fresh_via(_tag_tree(d), "validate_plain" if k % 2 else "json", k))
+        else:
+            vocab.append(cls(term=_new_term(d["term"]), value=d["value"]))
+    vkeys = [(jkey(d), jkey(d["term"])) for d in inp["vocab"]]
+    out = []
+    for n, p in enumerate(probes):
+        tp, op = _pat(idn.get("term", "fresh"), n), _pat(idn.get("obj", "new"), n)
+        pk, tk = jkey(p), jkey(p["term"])
+        own = [i for i, (a, _) in enumerate(vkeys) if a == pk]
+        twins = [i for i, (a, b) in enumerate(vkeys) if b == tk and a != pk]
+        src = None                                       # the vocabulary tag whose term object the probe carries
+        if tp == "own" and own:
+            src = vocab[own[0]]
+        elif tp == "other" and twins:
+            src = vocab[twins[(n + k) % len(twins)]]
+        term = src.term if src is not None else _new_term(p["term"])
+        if op == "same" and own:
+            obj = vocab[own[0]]
+        elif op == "copy" and own:
+            obj = copy.copy(vocab[own[0]]) if (n + k) % 2 else vocab[own[0]].model_copy()
+        elif op == "update" and src is not None:
+            obj = src.model_copy(update={"value": p["value"]})
+        elif op == "subclass":
+            obj = Sub(term=term, value=p["value"])
+        else:
+            obj = data.Tag(term=term, value=p["value"])
+        # what was realised (identities only; the content is the descriptor's by construction)
+        holders = [i for i, v in enumerate(vocab) if v.term is obj.term]
+        if not holders:
+            _seen("probe term object: fresh")
+        elif own and own[0] in holders:
+            _seen("probe term object: the equal vocabulary tag's" + (" (shared with others)" if len(holders) > 1 else ""))
+        else:
+            _seen("probe term object: ANOTHER vocabulary tag's" + ("" if own else ", no equal vocabulary tag"))
+        if any(v is obj for v in vocab):
+            _seen("probe object: the vocabulary's own")
+        elif type(obj) is not data.Tag:
+            _seen("probe object: subclass instance")
+        if own and type(obj) is not type(vocab[own[0]]):
+            _seen("probe and equal vocabulary tag of different classes")
+        out.append(obj)
+    terms = {}
+    for v, (_, b) in zip(vocab, vkeys):
+        terms.setdefault(b, set()).add(id(v.term))
+    if any(len(x) > 1 for x in terms.values()):
+        _seen("vocabulary: equal terms as separate objects")
+    if len(set(map(id, (v.term for v in vocab)))) < len(vocab):
+        _seen("vocabulary: one term object on several tags")
+    return vocab, out
+
+
+def _ident_setup(inp, probes):
+    from soundevent.evaluation import encoding
+    vocab, objs = _ident_objs(inp, probes)
+    return objs, encoding.create_tag_encoder(_container(vocab, _salt(inp) + inp["ident"].get("k", 0)))
+
+
+def _impl_encoder_ident(inp):
+    from soundevent.evaluation import encoding
+    vocab, probes = _ident_objs(inp, inp["tags"])
+    snapshot = list(vocab)
+    enc = encoding.create_tag_encoder(vocab)
+    n = enc.num_classes
+    first = [enc.encode(p) for p in probes]
+    again = [enc.encode(p) for p in reversed(probes)][::-1]
+    other = [encoding.create_tag_encoder(tags=_container(snapshot, inp["ident"].get("k", 0))).encode(p) for p in probes]
+    if not (first == again == other):
+        raise AssertionError("encode is not a function of the vocabulary and the tag: %r %r %r" % (first, again, other))
+    if len(vocab) != len(snapshot) or any(a is not b for a, b in zip(vocab, snapshot)):
+        raise AssertionError("the encoder changed the vocabulary list it was given")
+    if any(type(e) is not int for e in first if e is not None):
+        raise AssertionError("encode returned something that is not an int")
+    return {"num_classes": n,
+            "encode": first,
+            "decode": [_full(tag_to_desc(enc.decode(i))) for i in range(len(inp["vocab"]))]}
+
+
 def _impl_classification(inp):
     from soundevent.evaluation import encoding
-    r = _twice(encoding.classification_encoding, _tag_objs(inp), _encoder(inp), salt=_salt(inp), kw=ENC_SIG)
+    tags, enc = _ident_setup(inp, inp["tags"]) if inp.get("ident") else (_tag_objs(inp), _encoder(inp))
+    r = _twice(encoding.classification_encoding, tags, enc, salt=_salt(inp), kw=ENC_SIG)
     return None if r is None else int(r)
 
 
 def _impl_multilabel(inp):
     from soundevent.evaluation import encoding
     import numpy as np
-    r = _twice(encoding.multilabel_encoding, _tag_objs(inp), _encoder(inp), same=_arr_same, salt=_salt(inp), kw=ENC_SIG)
+    tags, enc = _ident_setup(inp, inp["tags"]) if inp.get("ident") else (_tag_objs(inp), _encoder(inp))
+    r = _twice(encoding.multilabel_encoding, tags, enc, same=_arr_same, salt=_salt(inp), kw=ENC_SIG)
     assert r.ndim == 1 and r.dtype.kind in "iub"
     return [int(x) for x in r]
 
@@ -463,11 +614,16 @@ def _impl_prediction(inp):
     from soundevent.evaluation import encoding
     import numpy as np
     preds = []
+    itags, enc = _ident_setup(inp, [p["tag"] for p in inp["preds"]]) if inp.get("ident") else (None, None)
     for p in inp["preds"]:
         s = float(Fraction(p["score"]))
         assert rat(f32(s)) == p["score32"], "stale score32 in input"
         how = (_salt(inp) + len(preds)) % 5
-        if how == 3:                                   # the prediction parsed from plain data / from a JSON document
+        if itags is not None:                          # the tag objects laid out by the identity pattern
+            preds.append(data.PredictedTag(tag=itags[len(preds)], score=s))
+            if preds[-1].tag is not itags[len(preds) - 1]:
+                _seen("PredictedTag did not keep the tag object it was given")
+        elif how == 3:                                   # the prediction parsed from plain data / from a JSON document
             preds.append(data.PredictedTag.model_validate({"tag": _plain(_tag_tree(p["tag"]), len(preds)), "score": s}))
         elif how == 4:
             import json
@@ -476,7 +632,8 @@ def _impl_prediction(inp):
         else:
             preds.append(data.PredictedTag(tag=mk_tag(p["tag"]), score=_as_num(s, inp.get("num"))))
         assert type(preds[-1].score) is float and preds[-1].score == s, "the score was not stored as the float given"
-    r = _twice(encoding.prediction_encoding, preds, _encoder(inp), same=_arr_same, salt=_salt(inp), kw=ENC_SIG)
+    r = _twice(encoding.prediction_encoding, preds, enc if itags is not None else _encoder(inp), same=_arr_same,
+               salt=_salt(inp), kw=ENC_SIG)
     assert r.ndim == 1 and r.dtype == np.float32
     return [rat(float(x)) for x in r]
 
@@ -1375,8 +1532,8 @@ OPS = {
                   nontrivial=lambda i, o: isinstance(o, dict) and "eq" in o),
 }
 for _n in ("classification", "multilabel", "prediction"):
-    OPS[_n].to_model = lambda inp: {k: v for k, v in inp.items() if k not in ("monitor", "xk", "num")}
-OPS["encoder"].to_model = lambda inp: {k: v for k, v in inp.items() if k != "paths"}
+    OPS[_n].to_model = lambda inp: {k: v for k, v in inp.items() if k not in ("monitor", "xk", "num", "ident")}
+OPS["encoder"].to_model = lambda inp: {k: v for k, v in inp.items() if k not in ("paths", "ident")}
 
 # review additions
 _G = lambda inp: {k: v for k, v in inp.items() if k not in ("np", "proto", "attr")}  # noqa: E731
@@ -2317,6 +2474,81 @@ def _stage_extras(ctx):
                                                 "probes in each of the 5 non-sorted orders")
 
 
+# ------------------------------------------------------------------ follow-up (wave 5): object identities
+T0F = {"term": T0, "value": "fish"}                                  # a term of the vocabulary with a value that is not
+IPOOL = [{"term": T0, "value": "dog"}, {"term": T0, "value": "cat"}, {"term": T0, "value": ""},
+         {"term": T1, "value": "dog"}, {"term": T1, "value": "cat"}, {"term": T5, "value": ""},
+         {"term": T5, "value": "dog"}, {"term": T4, "value": "dog"}]
+IPROBES = IPOOL + [T0F, {"term": T5, "value": "fish"}, {"term": T2, "value": "dog"}]
+
+
+def _ident_random(rng, n):
+    """an identity pattern chosen independently for the vocabulary and for each of n probes"""
+    return {"share": rng.choice(IDENT_SHARE), "vcls": rng.choice(["tag", "tag", "sub", "mixed"]),
+            "term": [rng.choice(IDENT_TERM) for _ in range(max(n, 1))],
+            "obj": [rng.choice(IDENT_OBJ) for _ in range(max(n, 1))], "k": rng.randrange(6)}
+
+
+def _stage_identity(ctx):
+    """which Python objects carry the content must not matter: equal terms of the vocabulary as one shared object or
+    as separate equal objects; the probe's term object fresh, the equal vocabulary tag's, or ANOTHER vocabulary tag's;
+    the probe itself new, a model_copy(update), the vocabulary's object, a shallow copy, a subclass instance"""
+    rng = ctx.rng
+    thorough = ctx.thorough()
+    _IDENT_SEEN.clear()
+    # encoder: every vocabulary of <= 2 (<= 3 thorough) of the 8 tags over 4 terms (3 + 2 + 2 + 1 values) x every
+    # (share, term, obj) pattern applied to all probes, the class of the vocabulary tags cycling
+    pats = [{"share": s, "term": t, "obj": o} for s in IDENT_SHARE for t in IDENT_TERM for o in IDENT_OBJ]
+    cases = []
+    for v in _vocabs(IPOOL, 3 if thorough else 2):
+        for j, pt in enumerate(pats):
+            cases.append({"vocab": v, "tags": IPROBES, "ident": {**pt, "vcls": IDENT_VCLS[(j + len(cases)) % 3 if len(v) else 0],
+                                                                "k": len(cases) % 6}})
+    nv = len(cases) // len(pats)
+    if not thorough:             # three tags over two terms (two of them on equal terms), every pattern
+        for v in itertools.permutations(IPOOL[:4], 3):
+            for j, pt in enumerate(pats):
+                cases.append({"vocab": list(v), "tags": IPROBES, "ident": {**pt, "vcls": IDENT_VCLS[(j + len(cases)) % 3],
+                                                                            "k": len(cases) % 6}})
+    ctx.run_cases(OPS["encoder"], cases)
+    ctx.run_cases(OPS["encoder"], ({"vocab": v, "tags": IPROBES, "ident": _ident_random(rng, len(IPROBES))}
+                                   for v in (rng.sample(IPOOL, rng.randint(2, len(IPOOL)))
+                                             for _ in range(ctx.budget(300, 6000)))))
+    # the three encodings: vocabularies x lists, an independently chosen pattern per vocabulary and per element
+    n = ctx.budget(700, 12000)
+    for name in ("classification", "multilabel", "prediction"):
+        out = []
+        for i in range(n):
+            v = rng.sample(IPOOL, rng.choice([1, 2, 2, 3, 3, 4, 8]))
+            src = v * 2 + IPROBES
+            tags = [rng.choice(src) for _ in range(rng.choice([1, 2, 2, 3, 4, 6]))]
+            c = {"vocab": v, "ident": _ident_random(rng, len(tags))}
+            if name == "prediction":
+                c["preds"] = [pred_desc(t, rng.choice([0.25, 0.5, 1.0, 0.1])) for t in tags]
+            else:
+                c["tags"] = tags
+            out.append(c)
+        ctx.run_cases(OPS[name], out)
+    ctx.exhaustive["object identities"] = (f"encoder: {nv} ordered vocabularies (<= {3 if thorough else 2} of {len(IPOOL)} tags "
+                                           f"over 4 terms) x {len(pats)} identity patterns (equal vocabulary terms separate / "
+                                           "shared / mixed x probe term object fresh / the equal vocabulary tag's / another "
+                                           "vocabulary tag's x probe a new Tag / model_copy(update) / the vocabulary's object / "
+                                           f"a shallow copy / a subclass instance), each probed with {len(IPROBES)} tags"
+                                           + ("" if thorough else "; the same for the 24 vocabularies of 3 of the first 4 tags"))
+    for kq, c in sorted(_IDENT_SEEN.items()):
+        ctx.tally("identity: " + kq, c)
+    # were the patterns realised?  (pydantic keeps the Term / Tag objects it is handed; if a change of the library made
+    # it copy them, the stage would compare less than it says: said in a note - not a failure of the property)
+    missing = [need for need in ("probe term object: ANOTHER vocabulary tag's", "vocabulary: equal terms as separate objects",
+                                 "vocabulary: one term object on several tags", "probe object: the vocabulary's own",
+                                 "probe object: subclass instance") if not _IDENT_SEEN.get(need)]
+    if _IDENT_SEEN.get("PredictedTag did not keep the tag object it was given"):
+        missing.append("PredictedTag keeps the tag object it is given")
+    if missing:
+        ctx.note("identity patterns that could not be laid out on the real objects (not exercised in this run): "
+                 + "; ".join(missing))
+
+
 # ------------------------------------------------------------------ follow-up 3: documented signatures (tie 1)
 def _stage_signatures(ctx):
     """the parameter names and order of the public functions, re-extracted with inspect.signature, against the
@@ -2407,6 +2639,7 @@ def run(ctx):
     ctx.stage("histories", _stage_histories, ctx)
     ctx.stage("sizes", _stage_sizes, ctx)
     ctx.stage("extras", _stage_extras, ctx)
+    ctx.stage("identity", _stage_identity, ctx)
     ctx.stage("generic-encoders", _stage_generic, ctx)
     ctx.stage("find", _stage_find, ctx)
     ctx.stage("init", _stage_init, ctx)
@@ -2824,5 +3057,5 @@ def search(ctx, failures):
     ctx.run_cases(OPS["prediction"], ({"vocab": v, "preds": p} for v in vocs for p in rng.sample(plists, 30)))
     ctx.run_cases(OPS["eq_hash"], _eq_hash_cases(ctx))
     ctx.run_cases(OPS["eq_hash"], _near_cases(ctx))
-    for st in (_stage_generic, _stage_find, _stage_init, _stage_raw, _stage_paths, _stage_extras, _stage_histories):
+    for st in (_stage_generic, _stage_find, _stage_init, _stage_raw, _stage_paths, _stage_extras, _stage_identity, _stage_histories):
         ctx.stage("search:" + st.__name__, st, ctx)
